@@ -233,6 +233,9 @@ EXTRA = [
     "print('zq_extra_marker{0}', argument_parser)",
     "for zq_i{0} in range(2):\n    print(zq_i{0})",
     "if zq_flag{0} is None:\n    zq_flag{0} = 1",
+    # options registered on something OTHER than the parser itself (a mutually exclusive group, an argument group)
+    "zq_group{0} = argument_parser.add_mutually_exclusive_group()\nzq_group{0}.add_argument('--zq_verbose{0}', action='store_true', help='zq be loud')",
+    "zq_section{0} = argument_parser.add_argument_group('zq section')\nzq_section{0}.add_argument('--zq_depth{0}', type=int, default={0})",
 ]
 
 
@@ -286,10 +289,16 @@ def argparse_from_src(ctx, src2, base, n_params):
 
     replay = {"what": "argparse", "src": src2, "base": base, "n_params": n_params}
     fd2 = ast.parse(src2).body[0]
-    from doctrans.ast_utils import is_argparse_add_argument, is_argparse_description
+    def _on_the_parser(s, what):
+        # the harness's own reading of "interface statement": argument_parser.add_argument(...) / argument_parser.description = ...
+        if what == "add_argument":
+            return (isinstance(s, ast.Expr) and isinstance(s.value, ast.Call) and isinstance(s.value.func, ast.Attribute)
+                    and s.value.func.attr == "add_argument" and isinstance(s.value.func.value, ast.Name) and s.value.func.value.id == "argument_parser")
+        return (isinstance(s, ast.Assign) and len(s.targets) == 1 and isinstance(s.targets[0], ast.Attribute) and s.targets[0].attr == "description"
+                and isinstance(s.targets[0].value, ast.Name) and s.targets[0].value.id == "argument_parser")
 
     def non_interface(body):
-        return [s for s in strip_doc(body) if not is_argparse_add_argument(s) and not is_argparse_description(s)]
+        return [s for s in strip_doc(body) if not _on_the_parser(s, "add_argument") and not _on_the_parser(s, "description")]
 
     before = non_interface(fd2.body)
     ctx.case(("argparse", stmt_kinds(before), n_params), nontrivial=True, sample={"src": src2}, sample_key="argparse")
